@@ -1,3 +1,5 @@
+//go:build !nohook_c05
+
 // C05 layer 1 — explicit-state search over the real supervisor (step / Commit* / inject
 // / requestClose driven directly, no goroutines; the harness owns the event queue).
 // A state of the real object cannot be cloned: a state is the action history that
